@@ -364,6 +364,12 @@ def check(src, rep):
         if isinstance(v, dict):
             consts[("g2", "obis_map", k)] = v
             consts[("f0", ("g", "obis_map"), k)] = v
+    for shared_ in ("cosem", "obis", "common"):
+        # tables of the shared helper modules (a grammar lambda defined there indexes them by its bare name)
+        if shared_ in M.mods:
+            for k, v in ce.module_env(shared_).items():
+                if isinstance(v, (dict, list)) and not k.startswith("__"):
+                    consts.setdefault(("g", k), v)
     for mod in DECODER_MODS:
         mt = ModuleTyping(M, w, T, mod)
         for k, v in ce.module_env(mod).items():
